@@ -191,6 +191,26 @@ def h_real_wcs_executed(m):
         c_, s_ = math.cos(math.radians(rot)), math.sin(math.radians(rot))
         w.wcs.pc = [[c_, -s_], [s_, c_]]
         centre = SkyCoord(40.0 + dlon, lat0 + dlat, unit='deg', frame='icrs')
+        _check_real(m, w, centre, f'lat {lat0}')
+    # region centres in OTHER frames than the WCS's (north is the north of the REGION's frame at the region centre), incl. frame attributes
+    from astropy.coordinates import FK5, FK4
+    w = WCS(naxis=2)
+    w.wcs.ctype = ['RA---TAN', 'DEC--TAN']
+    w.wcs.crval = [40.0, 30.0]
+    w.wcs.crpix = [300.0, 300.0]
+    w.wcs.cdelt = [-0.001, 0.001]
+    base = SkyCoord(40.05, 30.04, unit='deg', frame='icrs')
+    for nm, fr in (('galactic', 'galactic'), ('fk5 J1975', FK5(equinox='J1975')), ('fk4 B1950', FK4(equinox='B1950')), ('fk5 J2000', 'fk5')):
+        c2 = base.transform_to(fr)
+        centre = SkyCoord(c2.spherical.lon, c2.spherical.lat, frame=c2.frame.replicate_without_data())
+        _check_real(m, w, centre, f'centre in {nm} on an ICRS image')
+
+
+def _check_real(m, w, centre, tag):
+    import math
+    from regions import EllipseSkyRegion, CircleSkyRegion
+    if True:
+        lat0 = tag
         sky = EllipseSkyRegion(centre, 30 * u.arcsec, 12 * u.arcsec, angle=25 * u.deg)
         pix = sky.to_pixel(w)
         x0, y0 = w.world_to_pixel(centre)
@@ -204,6 +224,8 @@ def h_real_wcs_executed(m):
         m.require(f'real WCS (lat {lat0}): centre is the pixel position of the sky centre', abs(pix.center.x - x0) < 1e-6 and abs(pix.center.y - y0) < 1e-6)
         m.require(f'real WCS (lat {lat0}): orientation follows the local north at the region centre', abs(diff) < 1e-3)
         m.require(f'real WCS (lat {lat0}): sizes follow the local scale', abs(pix.width / (30 * step) - 1) < 1e-4 and abs(pix.height / (12 * step) - 1) < 1e-4)
+        circ = CircleSkyRegion(centre, 15 * u.arcsec).to_pixel(w)
+        m.require(f'real WCS (lat {lat0}): circle radius follows the local scale', abs(circ.radius / (15 * step) - 1) < 1e-4)
 
 
 def harnesses(tier):
